@@ -237,7 +237,7 @@ def equivalence(part, spec, mode, only_case=None, builder=None, name=None):
                 a, b = make_pair(sub, mode)
                 return jnorm(a.export_datatype()) != jnorm(b.export_datatype())
             sub = localise_spec(spec, fails) if builder is None else spec
-            part.violation(f'C03:{mode}:{sub[0]}:datainfo-differs',
+            part.violation(f'C03:{mode}:{sub[0] if builder is None else type(p).__name__}:datainfo-differs',
                            {'check': mode, 'spec': T.tojson(spec), 'special': name, 'what': 'datainfo'},
                            f'{tname}: datainfo of the original {dp[1]!r}, after {mode} {dq[1]!r}')
     seen = set()
@@ -262,7 +262,7 @@ def equivalence(part, spec, mode, only_case=None, builder=None, name=None):
                             break
                     return hit
                 sub = localise_spec(spec, fails) if builder is None else spec
-                part.violation(f'C03:{mode}:{sub[0]}:{res[0]}:{res[1]}',
+                part.violation(f'C03:{mode}:{sub[0] if builder is None else type(p).__name__}:{res[0]}:{res[1]}',
                                {'check': mode, 'spec': T.tojson(spec), 'special': name, 'entry': entry, 'x': V.enc(x)},
                                f'{tname} vs its {mode} ({T.sstr(sub)} is the innermost part behaving differently), '
                                f'{entry} probe {x!r}: {res[2]}')
